@@ -26,7 +26,7 @@ func init() {
 	mc.Register(&mc.Property{
 		ID:    "C16",
 		Level: "exploration",
-		Rule: "E1 bounded-exhaustive enumeration: key sets = every non-empty subset (in sorted order) of the 13 strings of length ≤2 over {00,'a',ff}, each behind the stems of 0/7/8/9/16/17 bytes; every subset of the 15 strings of length ≤3 over {00,'a'} and every subset of size ≤4 of the 40 strings of length ≤3 over {00,'a',ff} behind stems of 0 and 8 bytes (thorough adds every subset of the 21 strings of length ≤2 over {00,01,'a',ff} and the subsets of size 5..6 of the 40 strings): FirstDiffBits on the set; New+CountPrefixes for every 0 ≤ s, s+2 ≤ e ≤ len and every m in {1,2,4,7,10,17}. " +
+		Rule: "E1 bounded-exhaustive enumeration: key sets = every non-empty subset (in sorted order) of the 13 strings of length ≤2 over {00,'a',ff}, each behind the stems of 0/7/8/9/16/17/24/31/32/33/64/65 bytes; every subset of 12 keys built from 4 stem variants (first byte 's'/0x00/0xff, eighth byte 0x80); four large key sets taken whole (31, 63, 121 and 341 keys); every subset of the 15 strings of length ≤3 over {00,'a'} and every subset of size ≤4 of the 40 strings of length ≤3 over {00,'a',ff} behind stems of 0 and 8 bytes (thorough adds every subset of the 21 strings of length ≤2 over {00,01,'a',ff} and the subsets of size 5..6 of the 40 strings): FirstDiffBits on the set; New+CountPrefixes for every 0 ≤ s, s+2 ≤ e ≤ len and every m in {1,2,4,7,10,17}. " +
 			"Oracle: first differing index of the '0'/'1' renderings (8·min(len) for a byte-prefix); m0 = minimum over the range; counter i = number of distinct values of the bit string truncated to m0+i bits (adjacent-compare count in the hot path, cross-checked against a map count). A case is one call; non-trivial when the range holds ≥3 keys or the set has a shared stem; key sets that re-occur in a later family are executed again but counted once.",
 		Assumptions: []string{"key sets are drawn from small byte alphabets behind fixed stems; the 8-byte chunk boundaries are crossed through the stems"},
 		Run:         c16Run,
@@ -130,7 +130,13 @@ type c16Family struct {
 	maxSize int // 0 = all subsets
 }
 
+// c16Whole as maxSize: the universe itself is the only key set of the family.
+const c16Whole = 1 << 20
+
 func (f c16Family) hasSize(k int) bool {
+	if f.maxSize == c16Whole {
+		return k == len(f.univ)
+	}
 	switch {
 	case f.maxSize == 0:
 		return true
@@ -142,7 +148,21 @@ func (f c16Family) hasSize(k int) bool {
 
 func c16Families(c *mc.Ctx) []c16Family {
 	sortS := func(x []string) []string { sort.Strings(x); return x }
-	f := []c16Family{{"len≤2 over {00,'a',ff}", sortS(gen.Strings([]byte{0, 'a', 0xff}, 2)), []int{0, 7, 8, 9, 16, 17}, 0}}
+	f := []c16Family{{"len≤2 over {00,'a',ff}", sortS(gen.Strings([]byte{0, 'a', 0xff}, 2)), []int{0, 7, 8, 9, 16, 17, 24, 31, 32, 33, 64, 65}, 0}}
+	// keys whose stems differ in their first byte (by ≥128) and in the last byte of the first 8-byte chunk
+	var mixed []string
+	for v := 0; v < c09StemVariants; v++ {
+		for _, t := range []string{"", "\x00", "a"} {
+			mixed = append(mixed, c09StemV(9, v)+t)
+		}
+	}
+	f = append(f, c16Family{"4 stem variants × {'',00,'a'}", sortS(mixed), []int{0}, 0})
+	// large key sets taken whole (deep recursion of the sharding, long ranges)
+	f = append(f,
+		c16Family{"all 31 strings of len≤4 over {a,b}", sortS(gen.Strings([]byte{'a', 'b'}, 4)), []int{0, 8}, c16Whole},
+		c16Family{"all 63 strings of len≤5 over {00,'a'}", sortS(gen.Strings([]byte{0, 'a'}, 5)), []int{0, 9}, c16Whole},
+		c16Family{"all 121 strings of len≤4 over {00,'a',ff}", sortS(gen.Strings([]byte{0, 'a', 0xff}, 4)), []int{0, 8}, c16Whole},
+		c16Family{"all 341 strings of len≤4 over {00,01,'a',ff}", sortS(gen.Strings([]byte{0, 1, 'a', 0xff}, 4)), []int{0}, c16Whole})
 	f = append(f, c16Family{"len≤3 over {00,'a'}", sortS(gen.Strings([]byte{0, 'a'}, 3)), []int{0, 8}, 0},
 		c16Family{"len≤3 over {00,'a',ff}, size≤4", sortS(gen.Strings([]byte{0, 'a', 0xff}, 3)), []int{0, 8}, 4})
 	if c.Thorough {
@@ -155,6 +175,16 @@ func c16Families(c *mc.Ctx) []c16Family {
 
 // eachSubset enumerates non-empty subsets of [0,n) of size ≤ max (0 = any), ascending index order inside.
 func eachSubset(n, max int, lo, hi uint64, f func(ix []int)) {
+	if max == c16Whole {
+		if lo == 0 {
+			ix := make([]int, n)
+			for i := range ix {
+				ix[i] = i
+			}
+			f(ix)
+		}
+		return
+	}
 	if max == 0 {
 		ix := make([]int, 0, n)
 		for m := lo; m < hi; m++ {
@@ -198,6 +228,9 @@ func eachSubset(n, max int, lo, hi uint64, f func(ix []int)) {
 // also occurs in an earlier family with the same stem; such repeats are executed
 // but not counted as distinct non-trivial cases.
 func c16Dup(fams []c16Family, fi, stem int, ix []int) bool {
+	if fams[fi].maxSize == c16Whole {
+		return false
+	}
 	for j := 0; j < fi; j++ {
 		g := fams[j]
 		if !g.hasSize(len(ix)) {
@@ -241,7 +274,9 @@ func c16Shards(fams []c16Family) []c16Shard {
 	var out []c16Shard
 	for fi, f := range fams {
 		for _, st := range f.stems {
-			if f.maxSize == 0 {
+			if f.maxSize == c16Whole {
+				out = append(out, c16Shard{fi, st, 0, 1})
+			} else if f.maxSize == 0 {
 				total := uint64(1) << uint(len(f.univ))
 				step := total / 64
 				if step == 0 {
